@@ -146,6 +146,29 @@ def _same_arc(a, b):
     return a is not None and b is not None and root(a) == root(b)
 
 
+def rule_last_drop_stops(m, rep, rid='R0'):
+    """The stop request is issued unconditionally when the last handle goes: the Drop that reaches the stop method does so
+    on every path (no `if !thread::panicking()`, no early return), and it belongs to the handle / its shared guard."""
+    cad = m.cad
+    stop = m.stop.path
+    found = 0
+    for i in cad.impls_of(DROP_TRAIT):
+        adt = i.get('self_adt')
+        b = drop_impl(cad, adt)
+        if b is None:
+            continue
+        must, may, ib, sb = calls_stop(cad, b, stop)
+        if not may:
+            continue
+        found += 1
+        owned = adt == Q or adt in by_value_adts(cad, Q) or any(inner == adt for _, inner in arc_held_adts(cad, Q))
+        rep.ob(rid, '%s/drop-always-requests-stop' % adt.rsplit('::', 1)[-1], must and owned, b.where(),
+               'dropping the last handle always calls the worker\'s stop method' if must and owned else
+               ('%s::drop calls stop() only on some paths: the last drop may leave the worker running forever (wrapped sink never dropped/flushed)' % adt.rsplit('::', 1)[-1]
+                if owned else '%s is not owned by the handle' % adt))
+    rep.floor(rid, 'destructors that request the stop', found, 1)
+
+
 # ------------------------------------------------------------------ C09-R1..R3 stop protocol
 def rule_stop(m, rep):
     cad = m.cad
